@@ -44,6 +44,7 @@ ASSUMPTIONS = ["every add uses a fresh RemoteJob object (one object added twice 
 EXPLANATION = ("Exact(m): the file is exactly the image of memory. Theorems (current code, any jobs, any script): Exact "
                "holds after every operation of every history, returning or raising. Repaired and kept as corpus "
                "regression guards: job_context lost on re-open (bf317fcd), add raising after the append (13320b52), "
+               "second refresh inside get_results not written (65ec16e2), "
                "status refreshed inside a launch loop not written (9afb11d4: one more write on leaving the loop iff "
                "the jobs differ from what was last written or read; the write sequence is compared with the model).")
 
@@ -389,6 +390,7 @@ def impl_step(env, g, o):
     import requests
     k = o[0]
     val = None
+    env.dup_expected = False       # the job about to be added carries an identifier already present in the group
     try:
         if k == "add":
             job = build_job(env, o[1])
@@ -397,6 +399,7 @@ def impl_step(env, g, o):
                     job.execute_async()
                 except Exception:
                     pass
+            env.dup_expected = job.id is not None and job.id in [j._id for j in g._jobs]
             kw = {}
             if o[3]:
                 kw["max_samples"] = o[3][0]
@@ -408,6 +411,7 @@ def impl_step(env, g, o):
         elif k == "readd":
             # the same object: only for a sent job (refusal expected); an unsent one would be Python aliasing
             if o[1] < len(g._jobs) and g._jobs[o[1]].was_sent:
+                env.dup_expected = True
                 g.add(g._jobs[o[1]])
         elif k == "rerun":
             if o[1]:
@@ -441,6 +445,7 @@ def impl_step(env, g, o):
 def impl_wstep(env, hs, wo):
     import datetime
     k = wo[0]
+    env.dup_expected = False
     if k == "open":
         hs[wo[1]] = env.JobGroup(NAMES[wo[1]])
         return 0, None
@@ -505,22 +510,38 @@ def opname(o):
     return o[0]
 
 
+# Signatures. PROPERTY-LEVEL (what the statement names): reopened-* / other-group-changed-* (disk vs memory in any field),
+# group-names-* (list_existing / re-open by name), identifier-twice-*, duplicate-identifier-accepted-*,
+# raises-where-it-must-not-*, request-differs-after-reopen-*, progress-not-a-partition.
+# CORRESPONDENCE-ONLY (model and implementation differ on something the statement does not speak about): model-* —
+# the ordered log of requests / status polls / file writes, answers consumed, white-box fields of the jobs in memory,
+# file content or re-opened group differing from the MODEL while agreeing with each other, accessor and progress values
+# differing from the model, an outcome difference other than the two above; jobgroup-public-api-not-covered.
+# When a history shows both kinds, only the property-level problems are reported.
 def evaluate(env, wops, script, model_out):
-    """Runs the world history on the implementation, compares with the model after every operation.
-    Returns (problems, created) : problems = list of (index, signature, what, expected, observed);
-    created = {job name: first create-request body} for the re-open comparison."""
+    """Runs the world history on the implementation; compares with the model after every operation as long as both
+    agree (a first disagreement is recorded as correspondence-only and the model is no longer consulted), and checks the
+    property itself on the implementation alone after every operation of the whole history.
+    Returns (problems, created): problems = [(index, signature, what, expected, observed, correspondence_only)]."""
     env.script = [list(a) for a in script]
     env.log = []
-    problems = []
+    corr = []
+    prop = []
     created = {}
     hs = {}
-    diverged = False       # only the operation that introduces a difference is reported
+    sync = True            # the model still describes the implementation
+    diverged = False       # only the operation that introduces a disk / memory difference is reported
     dup_seen = False
     script_ids = [a[1] for a in script if a[0] == 0]
     JG = env.JobGroup
 
     def path(n):
         return os.path.join(JG._DIR_PATH, NAMES[n] + ".jgrp")
+
+    def lost(i, sig, what, exp, obs):
+        nonlocal sync
+        corr.append((i, sig, what, exp, obs, True))
+        sync = False
     try:
         for i, (o, mo) in enumerate(zip(wops, model_out)):
             env.log = []
@@ -528,126 +549,112 @@ def evaluate(env, wops, script, model_out):
             code, val = impl_wstep(env, hs, o)
             m_out, m_log, m_cons, m_files, m_handles, m_flag = mo
             where = f"after `{wshow(o)}`"
-            if code != m_out:
-                sig = (f"duplicate-identifier-accepted-{opname(o)}" if m_out == 1 and code == 0
-                       else f"model-outcome-{opname(o)}")
-                problems.append((i, sig, f"outcome differs {where}", EXC.get(m_out, "returns"), EXC.get(code, "returns")))
-                break
+            how = "raises-" + EXC[code] if code else "returns"
             for r in env.log:
                 if r[0] == 0:
                     created.setdefault(r[1][0], r[1])
-            if env.log != m_log:
-                problems.append((i, f"model-requests-{opname(o)}",
-                                 f"requests received by the server / writes of the file differ {where}", m_log, env.log))
-                break
-            if env.consumed != m_cons:
-                problems.append((i, "model-consumed", f"number of answers consumed differs {where}", m_cons, env.consumed))
-                break
-            # ---- the directory: exactly the names of the model, each file with the model's content
-            m_names = sorted(NAMES[f[0]] for f in m_files)
+            # ---- property: a job already present by identifier cannot be added twice
+            if env.dup_expected and code != 1:
+                prop.append((i, f"duplicate-identifier-accepted-{opname(o)}", f"a job whose identifier is already in the group "
+                             f"was accepted ({how}) {where}", "ValueError", EXC.get(code, "returns"), False))
+            if sync and env.log != m_log:
+                # a different sequence of requests / writes: the script is consumed differently from here on, so a different
+                # outcome is a consequence, not a finding of its own
+                lost(i, f"model-requests-{opname(o)}", f"requests received by the server / writes of the file differ {where}", m_log, env.log)
+            if sync and code != m_out:
+                if m_out == 1 and code == 0:
+                    if not env.dup_expected:
+                        prop.append((i, f"duplicate-identifier-accepted-{opname(o)}", f"outcome differs {where}", "ValueError", "returns", False))
+                    sync = False
+                elif m_out == 0:
+                    prop.append((i, f"raises-where-it-must-not-{opname(o)}-{EXC[code]}", f"the operation raises {where}",
+                                 "returns", EXC[code], False))
+                    sync = False
+                else:
+                    lost(i, f"model-outcome-{opname(o)}", f"outcome differs {where}", EXC.get(m_out, "returns"), EXC.get(code, "returns"))
+            if sync and env.consumed != m_cons:
+                lost(i, "model-consumed", f"number of answers consumed differs {where}", m_cons, env.consumed)
+            # ---- property: the directory holds exactly the groups created and not deleted
+            names = sorted(NAMES[n] for n in hs)
             existing = sorted(JG.list_existing())
-            if existing != m_names:
-                problems.append((i, f"group-names-{opname(o)}", f"JobGroup.list_existing() differs from the names written {where}",
-                                 m_names, existing))
-                break
-            bad = None
-            for n, m_disk in m_files:
+            if existing != names and not diverged:
+                diverged = True
+                prop.append((i, f"group-names-{opname(o)}", f"JobGroup.list_existing() differs from the names of the groups created "
+                             f"and not deleted {where}", names, existing, False))
+            if sync and sorted(NAMES[f[0]] for f in m_files) != names:
+                lost(i, "model-live-objects", f"names differ from the model {where}", sorted(NAMES[f[0]] for f in m_files), names)
+            m_file = dict((f[0], f[1]) for f in m_files) if sync else {}
+            m_hand = dict((h[0], h) for h in m_handles) if sync else {}
+            for n in sorted(hs):
+                g = hs[n]
+                mem = [enc_job(env, j) for j in g._jobs]
                 try:
                     raw = json.loads(open(path(n), encoding="utf-8").read())
                     dk = [enc_djob(env, d) for d in raw["job_group_data"]]
-                except OSError:
+                except (OSError, ValueError):
                     dk = None
-                if dk != m_disk:
-                    bad = (n, m_disk, dk)
-                    break
-                ids_dk = [d[0][0] for d in dk if d[0]]
-                if len(ids_dk) != len(set(ids_dk)) and len(set(script_ids)) == len(script_ids) and not dup_seen:
-                    dup_seen = True
-                    problems.append((i, f"identifier-twice-disk-after-{opname(o)}",
-                                     f"the same identifier appears twice in the file of {NAMES[n]!r} {where}", None, ids_dk))
-            if bad:
-                problems.append((i, f"model-file-{opname(o)}", f"file of group {NAMES[bad[0]]!r} differs from the model {where}",
-                                 bad[1], bad[2]))
-                break
-            # ---- the live objects
-            if sorted(hs) != sorted(h[0] for h in m_handles):
-                problems.append((i, "model-live-objects", f"live objects differ {where}", sorted(h[0] for h in m_handles), sorted(hs)))
-                break
-            stop = False
-            for n, m_mem, m_rel, m_prog, m_lists, m_nsw in m_handles:
-                g = hs[n]
-                mem = [enc_job(env, j) for j in g._jobs]
-                if mem != m_mem:
-                    problems.append((i, f"model-memory-{opname(o)}", f"jobs of g{n} in memory differ from the model {where}", m_mem, mem))
-                    stop = True
-                    break
-                # pure accessors
-                acc = (len(g), [j.id for j in g.remote_jobs], g.name, len(g.list_unsent_jobs()),
-                       all(g[k] is g._jobs[k] for k in range(len(g))))
-                exp = (len(m_mem), [None if not j[0] else f"J{j[0][0]}" for j in m_mem], NAMES[n], m_lists[3], True)
-                if acc != exp:
-                    problems.append((i, "model-accessors", f"len / remote_jobs / name / list_unsent_jobs / [] of g{n} differ {where}",
-                                     exp, acc))
-                    stop = True
-                    break
                 clock = env.clock[0]
                 g2 = JG(NAMES[n])            # re-open BY NAME in a fresh object
                 env.clock[0] = clock
                 rel = [enc_job(env, j) for j in g2._jobs]
-                if rel != m_rel:
-                    problems.append((i, f"model-reload-{opname(o)}", f"group {NAMES[n]!r} re-opened by name differs from the model {where}",
-                                     m_rel, rel))
-                    stop = True
-                    break
-                ids_mem = [j[0][0] for j in mem if j[0]]
-                if len(ids_mem) != len(set(ids_mem)) and len(set(script_ids)) == len(script_ids) and not dup_seen:
-                    dup_seen = True
-                    problems.append((i, f"identifier-twice-memory-after-{opname(o)}",
-                                     f"the same identifier appears twice in g{n} {where}", None, ids_mem))
-                # ---- the property itself, on the implementation alone
+                if sync:
+                    h = m_hand[n]
+                    if mem != h[1]:
+                        lost(i, f"model-memory-{opname(o)}", f"jobs of g{n} in memory differ from the model {where}", h[1], mem)
+                    elif dk != m_file.get(n):
+                        lost(i, f"model-file-{opname(o)}", f"file of group {NAMES[n]!r} differs from the model {where}", m_file.get(n), dk)
+                    elif rel != h[2]:
+                        lost(i, f"model-reload-{opname(o)}", f"group {NAMES[n]!r} re-opened by name differs from the model {where}", h[2], rel)
+                    else:
+                        acc = (len(g), [j.id for j in g.remote_jobs], g.name, len(g.list_unsent_jobs()),
+                               all(g[k] is g._jobs[k] for k in range(len(g))))
+                        exp = (len(h[1]), [None if not j[0] else f"J{j[0][0]}" for j in h[1]], NAMES[n], h[4][3], True)
+                        if acc != exp:
+                            lost(i, "model-accessors", f"len / remote_jobs / name / list_unsent_jobs / [] of g{n} differ {where}", exp, acc)
+                # ---- property: no identifier twice, in memory or on disk
+                for wh, idl in (("memory", [j[0][0] for j in mem if j[0]]), ("disk", [d[0][0] for d in (dk or []) if d[0]])):
+                    if len(idl) != len(set(idl)) and len(set(script_ids)) == len(script_ids) and not dup_seen:
+                        dup_seen = True
+                        prop.append((i, f"identifier-twice-{wh}-after-{opname(o)}", f"the same identifier appears twice in {wh} "
+                                     f"(group {NAMES[n]!r}) {where}; the server never issued an identifier twice", None, idl, False))
+                # ---- property: the group re-opened by name is the group in memory
                 a, b = strip_errs(mem), strip_errs(rel)
                 if a != b and not diverged:
                     diverged = True
                     kind = diff_kind(a, b)
-                    how = "raises-" + EXC[code] if code else "returns"
                     acted = o[0] == "on" and o[1] == n
                     if kind == "job_context":
                         sig = "reopened-job_context-lost"
-                    elif kind == "status" and acted and o[2][0] == "results" and m_flag:
-                        sig = "get_results-status-change-not-written"
                     elif acted or o[0] == "open":
                         sig = f"reopened-differs-{kind}-after-{opname(o)}-{how}"
                     else:
                         sig = f"other-group-changed-{kind}-after-{opname(o)}"
-                    problems.append((i, sig, f"re-opening {NAMES[n]!r} by name {where} ({how}) does not give the group in memory "
-                                     f"[{kind}]", a, b))
-            if stop:
-                break
+                    prop.append((i, sig, f"re-opening {NAMES[n]!r} by name {where} ({how}) does not give the group in memory [{kind}]",
+                                 a, b, False))
             if o[0] == "on" and code == 0 and o[1] in hs:
                 n = o[1]
-                h = [x for x in m_handles if x[0] == n][0]
-                if o[2][0] == "progress":
-                    if o[2][1] == 0:
-                        u, s_, ot, a = h[3]
-                        exp = {"Total": len(h[1]), "Finished": [s_ + ot, {"successful": s_, "unsuccessful": ot}],
-                               "Unfinished": [a + u, {"sent": a, "not sent": u}]}
-                        if val != exp:
-                            problems.append((i, "model-progress", f"progress() differs from the model {where}", exp, val))
-                            break
-                        fin, unf = val["Finished"], val["Unfinished"]
-                        if not (fin[0] + unf[0] == val["Total"] == len(hs[n]._jobs) and sum(fin[1].values()) == fin[0]
-                                and sum(unf[1].values()) == unf[0]):
-                            problems.append((i, "progress-not-a-partition", f"progress() does not partition the jobs {where}",
-                                             len(hs[n]._jobs), val))
-                    elif val != h[4][o[2][1] - 1]:
-                        problems.append((i, "model-list", f"list size differs from the model {where}", h[4][o[2][1] - 1], val))
-                        break
-                elif o[2][0] == "results" and val != [None] * len(h[1]):
-                    problems.append((i, "model-results", f"get_results() differs {where}", [None] * len(h[1]), val))
-                    break
+                if o[2][0] == "progress" and o[2][1] == 0:
+                    fin, unf = val["Finished"], val["Unfinished"]
+                    if not (fin[0] + unf[0] == val["Total"] == len(hs[n]._jobs) and sum(fin[1].values()) == fin[0]
+                            and sum(unf[1].values()) == unf[0]):
+                        prop.append((i, "progress-not-a-partition", f"progress() does not partition the jobs {where}",
+                                     len(hs[n]._jobs), val, False))
+                if sync:
+                    h = m_hand[n]
+                    if o[2][0] == "progress":
+                        if o[2][1] == 0:
+                            u, s_, ot, a = h[3]
+                            exp = {"Total": len(h[1]), "Finished": [s_ + ot, {"successful": s_, "unsuccessful": ot}],
+                                   "Unfinished": [a + u, {"sent": a, "not sent": u}]}
+                            if val != exp:
+                                lost(i, "model-progress", f"progress() differs from the model {where}", exp, val)
+                        elif val != h[4][o[2][1] - 1]:
+                            lost(i, "model-list", f"list size differs from the model {where}", h[4][o[2][1] - 1], val)
+                    elif o[2][0] == "results" and val != [None] * len(h[1]):
+                        lost(i, "model-results", f"get_results() differs {where}", [None] * len(h[1]), val)
     finally:
         env.clean()
-    return problems, created
+    return (prop or corr[:1]), created
 
 
 # ------------------------------------------------------------------ generators
@@ -777,6 +784,11 @@ CORPUS = [
 # world-level corpus: every refreshing entry point after a launch, tricky names, two groups alive, deletions
 _P = lambda n, m=0: [n, [[], [], n], [], [], [], m]
 WCORPUS = [
+    # (e) repaired by 65ec16e2: second refresh of an UNKNOWN job inside get_results
+    ([["open", 0], ["on", 0, ["add", _P(1), True, [], False]], ["on", 0, ["results"]], ["open", 0], ["on", 0, ["progress", 0]]],
+     [[0, 10, 0], [0, 11, 7], [0, 12, 2], [0, 0, 0]]),
+    ([["open", 1], ["on", 1, ["add", _P(1), False, [], False]], ["on", 1, ["run", False]], ["on", 1, ["progress", 0]], ["on", 1, ["results"]]],
+     [[0, 10, 0], [0, 10, 7], [0, 10, 7], [0, 10, 3], [2]]),
     ([["open", 1], ["on", 1, ["add", _P(1), False, [], False]], ["on", 1, ["add", _P(2), False, [], False]], ["on", 1, ["run", False]],
       ["on", 1, ["results"]], ["open", 1], ["on", 1, ["progress", 0]]], [[0, 10, 0], [0, 11, 0], [0, 10, 2], [0, 11, 3], [0, 0, 0], [0, 0, 0]]),
     ([["open", 1], ["on", 1, ["add", _P(1), False, [], False]], ["on", 1, ["run", False]], ["on", 1, ["track"]], ["open", 1]],
@@ -878,7 +890,8 @@ def run(ctx):
         if api != OPERATIONS | OBSERVED | EXCLUDED:
             ctx.fail("jobgroup-public-api-not-covered", "public members of JobGroup that are neither operations of the "
                      "histories nor observed nor excluded (or the converse)", {"members": sorted(api)},
-                     sorted(OPERATIONS | OBSERVED | EXCLUDED), sorted(api ^ (OPERATIONS | OBSERVED | EXCLUDED)))
+                     sorted(OPERATIONS | OBSERVED | EXCLUDED), sorted(api ^ (OPERATIONS | OBSERVED | EXCLUDED)),
+                     correspondence_only=True)
         hist = []      # (stream, ops, script)
         # exhaustive short histories
         L = 3 if ctx.quick() else 4
@@ -938,17 +951,18 @@ def run(ctx):
                     ctx.count("model.unsaved_flag")
             problems, created = evaluate(env, ops, sc, mo)
             created_all[k] = created
-            for (i, sig, what, exp, obs) in problems:
+            for (i, sig, what, exp, obs, co) in problems:
+                ctx.count("problems.correspondence-only" if co else "problems.property-level")
                 if sig in reported:
-                    ctx.fail(sig, what, show_case(ops, sc), exp, obs)
+                    ctx.fail(sig, what, show_case(ops, sc), exp, obs, correspondence_only=co)
                     continue
                 reported.add(sig)
                 so, ss, p = shrink(ctx, env, ops, sc, sig)
                 if p is None:
-                    so, ss, p = ops, sc, (i, sig, what, exp, obs)
+                    so, ss, p = ops, sc, (i, sig, what, exp, obs, co)
                 case = show_case(so, ss)
                 case["failing_operation_index"] = p[0]
-                ctx.fail(sig, p[2], case, p[3], p[4])
+                ctx.fail(sig, p[2], case, p[3], p[4], correspondence_only=co)
         # request bodies: re-opened in between vs not
         for a, b in pairs:
             ca, cb = created_all.get(a, {}), created_all.get(b, {})
@@ -970,7 +984,8 @@ def run(ctx):
         y = ctx.model.vm_crosscheck(sample, "c19")
         ctx.count("vm_compute_crosscheck", len(sample))
         if x != y:
-            ctx.fail("extraction-vs-vm_compute", "extracted runner and vm_compute disagree", {"n": len(sample)})
+            ctx.fail("extraction-vs-vm_compute", "extracted runner and vm_compute disagree", {"n": len(sample)},
+                     correspondence_only=True)
     finally:
         env.close()
 
